@@ -787,7 +787,7 @@ pub fn execute(h: &History, seed_checks: usize, stats: &mut RunStats) -> Option<
     for (f, st) in &h.disk {
         apply_disk_state(&mut d, f, st);
     }
-    d.read_budget = Some(6_000);
+    d.read_budget = Some(200_000);
     disk::install(d);
     super::passwatch::install();
     let r = execute_inner(h, seed_checks, stats);
